@@ -72,6 +72,13 @@ class FCFG(CFG):
                                   production.features, ParseTree(production.head))
                 if processed.add(end_idx, new_state):
                     chart[end_idx].append(new_state)
+        # The variable may already be completed on the empty span (it is
+        # nullable): the current state has to advance over it as well
+        for other in list(processed.generator(end_idx)):
+            if not other.is_incomplete() and \
+                    other.positions[0] == end_idx and \
+                    other.production.head == next_var:
+                _completer(other, chart, processed)
 
     def contains(self, word: Iterable[Union[Terminal, str]]) -> bool:
         """ Gives the membership of a word to the grammar
@@ -136,6 +143,9 @@ class FCFG(CFG):
             state = chart[len(chart) - 1].pop()
             if not state.is_incomplete():
                 _completer(state, chart, processed)
+            elif state.next_is_variable():
+                # Nullable variables can still be derived at the end
+                self.__predictor(state, chart, processed)
         for state in processed.generator(len(word)):
             if state.positions[0] == 0 and not state.is_incomplete() and state.production.head == self.start_symbol:
                 return state
@@ -192,9 +202,11 @@ def _scanner(state, chart, processed):
     # We have an incomplete state and the next token is the word given as input
     # We move the end token and the dot token by one.
     end_idx = state.positions[1]
-    state.parse_tree.sons.append(ParseTree(state.production.body[state.positions[2]]))
+    # The tree of a state is never modified, other states share its sons
+    parse_tree = ParseTree(state.parse_tree.value)
+    parse_tree.sons = state.parse_tree.sons + [ParseTree(state.production.body[state.positions[2]])]
     new_state = State(state.production, (state.positions[0], end_idx + 1, state.positions[2] + 1),
-                      state.feature_stucture, state.parse_tree)
+                      state.feature_stucture, parse_tree)
     if processed.add(end_idx + 1, new_state):
         chart[end_idx + 1].append(new_state)
 
@@ -203,7 +215,7 @@ def _completer(state, chart, processed):
     # We have a complete state. We must check if it helps to move another state forward.
     begin_idx = state.positions[0]
     head = state.production.head
-    for next_state in processed.generator(begin_idx):
+    for next_state in list(processed.generator(begin_idx)):
         # next_state[1][1] == begin_idx always true
         if next_state.is_incomplete() and next_state.production.body[next_state.positions[2]] == head:
             try:
@@ -214,8 +226,8 @@ def _completer(state, chart, processed):
                 copy_right_considered.unify(copy_left)
             except FeatureStructuresNotCompatibleException:
                 continue
-            parse_tree = next_state.parse_tree
-            parse_tree.sons.append(state.parse_tree)
+            parse_tree = ParseTree(next_state.parse_tree.value)
+            parse_tree.sons = next_state.parse_tree.sons + [state.parse_tree]
             new_state = State(next_state.production,
                               (next_state.positions[0], state.positions[1], next_state.positions[2] + 1),
                               copy_right, parse_tree)
